@@ -490,6 +490,81 @@ fn reference_cs(input: &str) -> (Vec<(String, usize, usize)>, Log) {
     (items, log)
 }
 
+
+/// leaf numbering: a pattern that never wins anywhere (shadowed by a later, higher-priority twin)
+/// is declared FIRST, so every later leaf is shifted; the patterns behind it reach early-accepting,
+/// late-accepting and early-and-late-accepting states (word + look-ahead next to word + `!`)
+#[derive(Logos, Debug, Clone, PartialEq)]
+#[logos(extras = Log, error = MyErr)]
+#[logos(skip(" +", sk_unit))]
+pub enum MS {
+    #[token("let", cb_unit)]
+    Shadowed,
+    #[token("let", cb_val, priority = 30)]
+    Let(usize),
+    #[regex(r"[a-z]+(?-u:\b)", cb_val, priority = 5)]
+    Word(usize),
+    #[regex("[a-z]+!", cb_res, priority = 6)]
+    Shout(usize),
+    #[regex(r"\?+", cb_filter)]
+    Question(usize),
+}
+
+fn reference_ms(input: &str) -> (Vec<(String, usize, usize)>, Log) {
+    let b = input.as_bytes();
+    let (mut items, mut log): (Vec<(String, usize, usize)>, Log) = (vec![], vec![]);
+    let word = |c: Option<&u8>| matches!(c, Some(b'0'..=b'9' | b'A'..=b'Z' | b'a'..=b'z' | b'_'));
+    let mut p = 0;
+    while p < b.len() {
+        let c = b[p];
+        if c == b' ' {
+            let n = b[p..].iter().take_while(|x| **x == b' ').count();
+            log.push((p, p + n, input[p..p + n].to_string()));
+            p += n;
+        } else if c == b'?' {
+            let n = b[p..].iter().take_while(|x| **x == b'?').count();
+            log.push((p, p + n, input[p..p + n].to_string()));
+            if n % 2 != 0 {
+                items.push((format!("Ok(Question({n}))"), p, p + n));
+            }
+            p += n;
+        } else if c.is_ascii_lowercase() {
+            let n = b[p..].iter().take_while(|x| x.is_ascii_lowercase()).count();
+            let e = p + n;
+            if b.get(e) == Some(&b'!') {
+                // [a-z]+! is longer than anything else
+                let n = n + 1;
+                log.push((p, p + n, input[p..p + n].to_string()));
+                items.push((if n % 3 == 0 { format!("Err(Custom({n}))") } else { format!("Ok(Shout({n}))") }, p, p + n));
+                p += n;
+            } else if !word(b.get(e)) {
+                // the run ends at a word boundary: `let` (priority 30) beats the word
+                log.push((p, e, input[p..e].to_string()));
+                items.push((if &input[p..e] == "let" { "Ok(Let(3))".to_string() } else { format!("Ok(Word({n}))") }, p, e));
+                p = e;
+            } else {
+                // lower-case run followed by another word byte: no boundary after the run
+                if input[p..].starts_with("let") {
+                    log.push((p, p + 3, "let".to_string()));
+                    items.push(("Ok(Let(3))".to_string(), p, p + 3));
+                    p += 3;
+                } else {
+                    items.push(("Err(Default)".to_string(), p, e));
+                    p = e;
+                }
+            }
+        } else {
+            let mut e = p + 1;
+            while !input.is_char_boundary(e) {
+                e += 1;
+            }
+            items.push(("Err(Default)".to_string(), p, e));
+            p = e;
+        }
+    }
+    (items, log)
+}
+
 // ---------------------------------------------------------------- the boring reference
 #[derive(Clone, Copy, PartialEq)]
 pub enum Which {
@@ -701,6 +776,11 @@ pub fn run(tier: &str, rep: &mut Report) {
     for s in ["/*abc*/x", "/***/a/**/", "rem=abc\nz", "a rem x*/\nrem", "/* rem\n*/rem", "remx rem", "/*", "rem"] {
         check(rep, "MK", s, observe::<MK>(s), reference_mk(s), &mut digest);
     }
+    // shifted leaf numbering in front of early / late / early-and-late accepting states
+    strings(&["l", "e", "t", "x", "!", "?", " ", "A", "é"], l + 2, &mut |s| check(rep, "MS", s, observe::<MS>(s), reference_ms(s), &mut digest));
+    for s in ["let let! hey! hey?? lets", "xlet let!x tel", "a!b! ??? lett", "hey!let"] {
+        check(rep, "MS", s, observe::<MS>(s), reference_ms(s), &mut digest);
+    }
     // closure bodies of several syntactic shapes
     strings(&["a", "b", "c", "f", "g", "h", "i", "0", "1", " ", "!", "é"], l + 1, &mut |s| check(rep, "CS", s, observe::<CS>(s), reference_cs(s), &mut digest));
     // longer digit runs and bump runs
@@ -780,6 +860,7 @@ pub fn replay(rec: &serde_json::Value, rep: &mut Report) {
         "ML" => observe::<ML>(input) != reference_ml(input),
         "MK" => observe::<MK>(input) != reference_mk(input),
         "CS" => observe::<CS>(input) != reference_cs(input),
+        "MS" => observe::<MS>(input) != reference_ms(input),
         "MB" => observe_mb(input.as_bytes()) != reference_mb(input.as_bytes()),
         _ => observe::<M>(input).0 != observe::<Twin>(input).0,
     };
